@@ -124,7 +124,7 @@ def run_tlc(model, scratch, workers=8, coverage=True, simulate=None, depth=None,
 
     Returns dict(states, distinct, depth, exports, coverage, violated, log, wall_s, rc).
     export_sample=(cap, seed, must): keep every exported record with must(rec) true and a uniform reservoir sample
-    of `cap` of the others (bounds the memory of runs that export millions of states); res['exports_seen'] counts all.
+    of `cap` of the others; must(rec) is None drops the record (bounds the memory of runs that export millions of states); res['exports_seen'] counts all.
     `violated` is the name of the first violated invariant / action property, or None.
     """
     spec_path, cfg_path = model
@@ -182,6 +182,8 @@ def run_tlc(model, scratch, workers=8, coverage=True, simulate=None, depth=None,
                     res['exports_seen'] += 1
                     if not export_sample:
                         res['exports'].append(rec)
+                    elif must(rec) is None:
+                        pass                      # dropped
                     elif must(rec):
                         musts.append(rec)
                     else:
